@@ -12,6 +12,7 @@ from ._ast import _StatementList, _LateBoundStatement, _normalize_patterns
 from ._ir import *
 from ._cd import *
 from ._xfrm import *
+from ._xfrm import _DrivenMaskCollector
 from ._mem import MemoryData
 
 
@@ -629,7 +630,7 @@ class Module(_ModuleBuilderRoot, Elaboratable):
 
             _check_stmt(stmt)
 
-            lhs_masks = LHSMaskCollector()
+            lhs_masks = _DrivenMaskCollector()
             # This is an opportunistic early check — not much harm skipping it, since
             # the whole-design check will be later done in NIR emitter.
             if not isinstance(stmt, _LateBoundStatement):
